@@ -255,6 +255,51 @@ def deflate_buferror(ck, P):
               "deflate()'s BufError conditions found: %s" % sorted(found), where(fn))
 
 
+def avoid_spurious_buferror(ck, P):
+    """deflate() answers a repeated flush request with Z_BUF_ERROR unless the previous call marked itself as cut short
+    by a full output buffer (`last_flush = -1`, zlib: "avoid BUF_ERROR next call").  So wherever deflate() finds the
+    output buffer full (`avail_out == 0`) and still returns success, it has stored last_flush = -1 on that path; and the
+    number of such places does not drop below the four of zlib's deflate()."""
+    R = "PAIR/avoid-buferror"
+    fn = P.fn(Z + "deflate::deflate")
+    if not ck.anchor("fn deflate::deflate", fn):
+        return
+    ck.use_fn(fn)
+    marks = {bi for bi, fp, root, rv, st in fn.field_writes() if fp[-1:] == ("last_flush",) and fn.const_of(rv) == -1}
+    fails = flow.failure_blocks(fn)
+    rets = [b for b, k in fn.exits() if k == "return"]
+    n = 0
+    bad = []
+    for b in sorted(fn.live):
+        for lab, tb in fn.succ[b]:
+            if lab is None or lab[0] == "const":
+                continue
+            for a in fn.edge_atoms(b, lab):
+                s_ = sig.sig(a, fn)
+                if s_.rel == "Eq" and "avail_out" in s_.names and 0 in s_.consts and not s_.calls:
+                    # the output buffer is full on this edge
+                    if tb in fails or any(x in fails for x in fn.reach_from(tb) if False):
+                        continue
+                    reach = fn.reach_from(tb)
+                    if not (set(rets) & reach):
+                        continue
+                    leak = flow.reaches_avoiding(fn, [tb], rets, cut_blocks=marks | fails)
+                    if tb in fails:
+                        continue
+                    n += 1
+                    if leak and tb not in marks:
+                        bad.append(fn.blocks[b]["t"].get("line"))
+    ck.decide(not bad, R, "deflate:full-output", "last_flush = -1 on every successful return after `avail_out == 0`",
+              "deflate() can return success after finding the output buffer full without storing last_flush = -1 (tests near lines %s): "
+              "the caller's next call with the same flush is answered with Z_BUF_ERROR although output space is available and the flush "
+              "is not complete" % bad[:4], where(fn, bad[0] if bad else None))
+    ck.decide(n >= 4, R, "deflate:full-output-sites", "%d places test `avail_out == 0` before a successful return" % n,
+              "deflate() tests for a full output buffer before a successful return in only %d places; zlib's deflate() has four (after "
+              "flushing pending output, after each of the header fields, after the block function returns need_more, after a flush "
+              "marker): one of them has lost its `if avail_out == 0 { last_flush = -1 }`, so a repeated flush request is answered with "
+              "Z_BUF_ERROR although the flush is incomplete" % n, where(fn))
+
+
 def run(ck):
     P = prog("K1")
     ck.configs.add("K1")
@@ -264,4 +309,7 @@ def run(ck):
     total_compensation(ck, P)
     one_shot(ck, P)
     deflate_buferror(ck, P)
+    avoid_spurious_buferror(ck, P)
+    from .. import condparity
+    ck.floor("SIB/ref-conditions", condparity.check(ck, P, "SIB/ref-conditions", only={"inflate.c:inflate", "deflate_stored.c:deflate_stored", "deflate.c:deflate"}), 50)
     ck.assumptions += ["rustc MIR", "exception table for functions that assign rather than adjust", "host target; K1"]
